@@ -352,8 +352,15 @@ func runCase(c *CaseData, out *Out) {
 				out.GoPanic = fmt.Sprintf("%v\n%s", r, debug.Stack())
 			}
 		}()
-		if c.Ctx == "clone" {
-			res, err = runClone(ctx, mainSrc, opts)
+		switch c.Ctx {
+		case "clone":
+			res, err = runClone(ctx, ctx, mainSrc, opts, true)
+			return
+		case "late-clone":
+			res, err = runClone(base, ctx, mainSrc, opts, true)
+			return
+		case "late-call":
+			res, err = runClone(base, ctx, mainSrc, opts, false)
 			return
 		}
 		res, err = risor.Eval(ctx, mainSrc, opts...)
@@ -424,7 +431,9 @@ func runCase(c *CaseData, out *Out) {
 }
 
 // runClone defines verif_op on a VM, clones the VM and calls the function on the clone from Go.
-func runClone(ctx context.Context, src string, opts []risor.Option) (object.Object, error) {
+// defCtx is the context of the defining run, ctx that of the call; with clone=false the function is
+// called on the defining VM itself.
+func runClone(defCtx, ctx context.Context, src string, opts []risor.Option, useClone bool) (object.Object, error) {
 	cfg := risor.NewConfig(opts...)
 	ast, err := parser.Parse(ctx, src)
 	if err != nil {
@@ -435,12 +444,14 @@ func runClone(ctx context.Context, src string, opts []risor.Option) (object.Obje
 		return nil, err
 	}
 	machine := vm.New(code, cfg.VMOpts()...)
-	if err := machine.Run(ctx); err != nil {
+	if err := machine.Run(defCtx); err != nil {
 		return nil, err
 	}
-	clone, err := machine.Clone()
-	if err != nil {
-		return nil, err
+	clone := machine
+	if useClone {
+		if clone, err = machine.Clone(); err != nil {
+			return nil, err
+		}
 	}
 	fnObj, err := clone.Get("verif_op")
 	if err != nil {
